@@ -1,14 +1,21 @@
-(* RtTcSyn.v — the syntactic premise of `tc_annotations_typed` on the NAMES of a program (typecheck
-   accepts arbitrary ASTs; what follows holds of everything the parser + expandProcesses produce, and
-   the check module evaluates it on every program of the suite):
-     * no name of a source program carries a channel;
-     * a `self` name carries the identifier "" (the keyword) or the identifier of the explicit
-       provider of the function it occurs in, and not inside the scope of a binder of that identifier
-       (expandProcesses does not substitute under such a binder);
-     * binders (and provider names, parameters) carry a non-empty identifier;
-     * the explicit provider of a function is not one of its parameters; a process has at least one
-       provider name.
-   The typechecker only writes type annotations: these facts carry over to its output. *)
+(* RtTcSyn.v — what the parser and expandProcesses guarantee about the NAMES of a program, as a boolean
+   `raw_ok` (proved of everything `parse_string` returns in proofs/ParseRaw.v; typecheck accepts
+   arbitrary ASTs, so the translation of proofs/RtTcSound.v needs it as a premise on ASTs):
+     * no name carries a channel;
+     * a name that is not `self` has a non-empty identifier; a `self` name carries the identifier ""
+       (the keyword) or, in a function with an explicit provider, the identifier of that provider
+       — and the latter only outside the scope of a binder of that identifier (expandProcesses
+       does not substitute under such a binder);
+     * a binder is a plain name (non-empty identifier) or the keyword self; so are parameters;
+       a provider name of a process has a non-empty identifier or is the keyword self;
+     * a process has at least one provider name;
+     * the identifier of the explicit provider of a function occurs in its body only on `self` names
+       or under a binder of that identifier (`nouse`).
+   The conditions that the typing judgement needs beyond these — binders of context channels and
+   parameters are not the keyword self, the explicit provider is not a parameter, a provider name is
+   not the keyword self — are consequences of ACCEPTANCE and are derived in proofs/RtTcSound.v
+   (`stuck_all`: a context entry that the body cannot name makes the checker fail) and
+   proofs/RtTcSoundTop.v (guard providers_not_self, finding F31). *)
 From stdpp Require Import gmap strings.
 Require Import Grits.Base Grits.ModeDefs Grits.Modes Grits.STypes Grits.Forms Grits.Subst Grits.TcDeps Grits.Expand
                Grits.Tc Grits.TcTop Grits.spec.RtTyping.
@@ -16,62 +23,92 @@ Require Import Grits.Base Grits.ModeDefs Grits.Modes Grits.STypes Grits.Forms Gr
 Definition nm_ok (rs : gset string) (n : name) : bool :=
   match chan n with
   | Some _ => false
-  | None => if is_self n then bool_decide (ident n ∈ rs) else true
+  | None => if is_self n then bool_decide (ident n ∈ rs) else negb (String.eqb (ident n) "")
   end.
+(* a binder as the grammar produces it: LABEL or the keyword self *)
 Definition bd_ok (x : name) : bool :=
-  match chan x with Some _ => false | None => negb (String.eqb (ident x) "") end.
+  match chan x with
+  | Some _ => false
+  | None => if is_self x then String.eqb (ident x) "" else negb (String.eqb (ident x) "")
+  end.
+(* the scope of a binder: self names may no longer carry its identifier — unless it is "" *)
+Definition under (rs : gset string) (x : name) : gset string := rs ∖ ({[ident x]} ∖ {[""]}).
 
 Fixpoint syn_form (rs : gset string) (f : form) : bool :=
   match f with
   | FSend a b c => nm_ok rs a && nm_ok rs b && nm_ok rs c
-  | FRecv p c fr k => bd_ok p && bd_ok c && nm_ok rs fr && syn_form (rs ∖ {[ident p]} ∖ {[ident c]}) k
+  | FRecv p c fr k => bd_ok p && bd_ok c && nm_ok rs fr && syn_form (under (under rs p) c) k
   | FSel a _ c => nm_ok rs a && nm_ok rs c
   | FCase fr bs => nm_ok rs fr && syn_brs rs bs
-  | FNew x b k => bd_ok x && syn_form rs b && syn_form (rs ∖ {[ident x]}) k
+  | FNew x b k => bd_ok x && syn_form rs b && syn_form (under rs x) k
   | FClose c => nm_ok rs c
   | FWait c k => nm_ok rs c && syn_form rs k
   | FFwd a b _ => nm_ok rs a && nm_ok rs b
-  | FSplit x y fr k => bd_ok x && bd_ok y && nm_ok rs fr && syn_form (rs ∖ {[ident x]} ∖ {[ident y]}) k
+  | FSplit x y fr k => bd_ok x && bd_ok y && nm_ok rs fr && syn_form (under (under rs x) y) k
   | FCall _ args _ => forallb (nm_ok rs) args
   | FCast a c => nm_ok rs a && nm_ok rs c
-  | FShift x fr k => bd_ok x && nm_ok rs fr && syn_form (rs ∖ {[ident x]}) k
+  | FShift x fr k => bd_ok x && nm_ok rs fr && syn_form (under rs x) k
   | FDrop c k => nm_ok rs c && syn_form rs k
   | FPrint _ k => syn_form rs k
   end
 with syn_brs (rs : gset string) (b : branches) : bool :=
   match b with
   | BrNil => true
-  | BrCons _ p k r => bd_ok p && syn_form (rs ∖ {[ident p]}) k && syn_brs rs r
+  | BrCons _ p k r => bd_ok p && syn_form (under rs p) k && syn_brs rs r
+  end.
+
+(* the context name z cannot be named by f: every occurrence of the identifier z is a `self` name or
+   lies under a binder of z *)
+Definition nu (z : string) (n : name) : bool := is_self n || negb (String.eqb (ident n) z).
+Fixpoint nouse (z : string) (f : form) : bool :=
+  match f with
+  | FSend a b c => nu z a && nu z b && nu z c
+  | FRecv p c fr k => nu z fr && (String.eqb (ident p) z || String.eqb (ident c) z || nouse z k)
+  | FSel a _ c => nu z a && nu z c
+  | FCase fr bs => nu z fr && nouse_brs z bs
+  | FNew x b k => nouse z b && (String.eqb (ident x) z || nouse z k)
+  | FClose c => nu z c
+  | FWait c k => nu z c && nouse z k
+  | FFwd a b _ => nu z a && nu z b
+  | FSplit x y fr k => nu z fr && (String.eqb (ident x) z || String.eqb (ident y) z || nouse z k)
+  | FCall _ args _ => forallb (nu z) args
+  | FCast a c => nu z a && nu z c
+  | FShift x fr k => nu z fr && (String.eqb (ident x) z || nouse z k)
+  | FDrop c k => nu z c && nouse z k
+  | FPrint _ k => nouse z k
+  end
+with nouse_brs (z : string) (b : branches) : bool :=
+  match b with
+  | BrNil => true
+  | BrCons _ p k r => (String.eqb (ident p) z || nouse z k) && nouse_brs z r
   end.
 
 Definition fun_rs (fd : fundef) : gset string :=
   match fn_explicit fd with Some ep => {[ ""; ident ep ]} | None => {[ "" ]} end.
 
-Definition fun_syn_ok (fd : fundef) : bool :=
+Definition fun_raw (fd : fundef) : bool :=
   forallb bd_ok (fn_params fd) &&
   match fn_explicit fd with
-  | Some ep => match chan ep with None => true | Some _ => false end &&
-               negb (str_mem (ident ep) (map ident (fn_params fd)))
+  | Some ep => match chan ep with None => true | Some _ => false end && nouse (ident ep) (fn_body fd)
   | None => true
   end &&
   syn_form (fun_rs fd) (fn_body fd).
 
-Definition proc_syn_ok (pr : procdef) : bool :=
-  match pr_providers pr with [] => false | _ :: _ => true end &&
-  forallb bd_ok (pr_providers pr) && syn_form {[ "" ]} (pr_body pr).
+(* a provider name of a process: a LABEL, the keyword self (rejected by the checker: F31), or the
+   generated self name execN of an exec statement *)
+Definition pv_ok (x : name) : bool :=
+  match chan x with Some _ => false | None => is_self x || negb (String.eqb (ident x) "") end.
 
-Definition rt_syn_ok (p : program) : bool :=
-  forallb fun_syn_ok (p_funs p) && forallb proc_syn_ok (p_procs p).
+Definition proc_raw (pr : procdef) : bool :=
+  match pr_providers pr with [] => false | _ :: _ => true end &&
+  forallb pv_ok (pr_providers pr) && syn_form {[ "" ]} (pr_body pr).
+
+Definition raw_ok (p : program) : bool :=
+  forallb fun_raw (p_funs p) && forallb proc_raw (p_procs p).
 
 (* ------------------------------------------------------------------ basic facts *)
 Lemma nm_ok_set_nty rs n t : nm_ok rs (set_nty n t) = nm_ok rs n.
 Proof. reflexivity. Qed.
-
-Lemma bd_ok_binder x : bd_ok x = true -> binder x.
-Proof.
-  unfold bd_ok, binder. destruct (chan x); [discriminate|]. intros H. split; auto.
-  intros E. rewrite E in H. discriminate.
-Qed.
 Lemma bd_ok_set_nty x t : bd_ok (set_nty x t) = bd_ok x.
 Proof. reflexivity. Qed.
 
@@ -81,4 +118,48 @@ Lemma nm_ok_self rs n : nm_ok rs n = true -> is_self n = true -> ident n ∈ rs.
 Proof.
   unfold nm_ok. destruct (chan n); [discriminate|]. intros H S. rewrite S in H.
   apply bool_decide_eq_true in H. exact H.
+Qed.
+Lemma nm_ok_nonself rs n : nm_ok rs n = true -> is_self n = false -> ident n <> "".
+Proof.
+  unfold nm_ok. destruct (chan n); [discriminate|]. intros H S. rewrite S in H.
+  intros E. rewrite E in H. discriminate.
+Qed.
+
+Lemma bd_ok_chan x : bd_ok x = true -> chan x = None.
+Proof. unfold bd_ok. destruct (chan x); [discriminate|auto]. Qed.
+Lemma bd_ok_pbinder x : bd_ok x = true -> pbinder x.
+Proof. apply bd_ok_chan. Qed.
+(* a binder that is not the keyword self *)
+Lemma bd_ok_binder x : bd_ok x = true -> is_self x = false -> binder x.
+Proof.
+  unfold bd_ok, binder. destruct (chan x); [discriminate|]. intros H S. rewrite S in H. split; auto.
+  intros E. rewrite E in H. discriminate.
+Qed.
+Lemma bd_ok_self x : bd_ok x = true -> is_self x = true -> ident x = "".
+Proof.
+  unfold bd_ok. destruct (chan x); [discriminate|]. intros H S. rewrite S in H. apply String.eqb_eq. exact H.
+Qed.
+
+Lemma under_strict rs x : ident x <> "" -> under rs x = rs ∖ {[ident x]}.
+Proof. intros H. unfold under. apply set_eq. intros y. set_solver. Qed.
+Lemma under_self rs x : ident x = "" -> under rs x = rs.
+Proof. intros H. unfold under. rewrite H. apply set_eq. intros y. set_solver. Qed.
+
+(* a form all of whose plain names are non-empty cannot name "" *)
+Lemma nm_nu_empty rs n : nm_ok rs n = true -> nu "" n = true.
+Proof.
+  intros H. unfold nu. destruct (is_self n) eqn:S; auto. simpl.
+  apply negb_true_iff. apply String.eqb_neq. eapply nm_ok_nonself; eauto.
+Qed.
+Lemma syn_nouse_empty :
+  (forall f rs, syn_form rs f = true -> nouse "" f = true) /\
+  (forall b rs, syn_brs rs b = true -> nouse_brs "" b = true).
+Proof.
+  apply form_branches_ind; intros; simpl in *;
+    repeat match goal with H : _ && _ = true |- _ => apply andb_true_iff in H; destruct H end;
+    repeat (apply andb_true_iff; split); eauto using nm_nu_empty;
+    try (apply orb_true_iff; right; eauto; fail);
+    try (apply orb_true_iff; right; apply orb_true_iff; right; eauto; fail).
+  match goal with H : forallb _ _ = true |- _ => rewrite forallb_forall in H end.
+  apply forallb_forall. intros n Hn. eapply nm_nu_empty; eauto.
 Qed.
